@@ -356,11 +356,18 @@ Dev_EstOpen(h, e, o) ==            \* OPEN in Established silently ignored
   \A c \in ConnIds : Untouched(h, o, c)
 Dev_UnsupOpt(h, e, o) ==           \* treated as a valid OPEN
   LET c == CId(e) IN ConnOK(o[c], Rx("General", {}, FALSE, FALSE, 1), h.now, {""}) /\ Untouched(h, o, Other(c))
+Dev_Spurious(h, e, o) ==           \* the parked administrative Cease fires on the next session
+  LET c == CId(e) IN
+  /\ h.parked # <<>>
+  /\ ConnOK(o[c], Err("General", CeaseOr9(h, "Established", h.parked[1])), h.now, {h.parked[2]})
+  /\ Untouched(h, o, Other(c))
+
 Dev_KaLen(h, e, o) ==              \* treated as a KEEPALIVE
   LET c == CId(e) IN
   /\ Untouched(h, o, Other(c))
   /\ IF h[c].cs = "OpenSent" THEN ConnOK(o[c], Err("General", {<<5, 1>>}), h.now, {""})
-     ELSE Quiet(o[c]) /\ ~o[c].closed
+     ELSE \/ Quiet(o[c]) /\ ~o[c].closed
+          \/ h[c].cs = "OpenConfirm" /\ Dev_Spurious(h, e, o)     \* ... and the parked Cease fires
 Dev_ManualStopEarly(h, e, o) ==    \* connections in OpenSent / OpenConfirm closed without the Cease
   \A c \in ConnIds :
     IF c \in Early(h) THEN Quiet(o[c]) /\ o[c].closed
@@ -368,12 +375,6 @@ Dev_ManualStopEarly(h, e, o) ==    \* connections in OpenSent / OpenConfirm clos
     THEN ConnOK(o[c], Err("General", CeaseOr9(h, "Established", IF e.ev = "Disable" THEN 2 ELSE 3)), h.now,
                 {IF e.ev = "Disable" THEN CommHex(e.comm) ELSE ""})
     ELSE Quiet(o[c])
-Dev_Spurious(h, e, o) ==           \* the parked administrative Cease fires on the next session
-  LET c == CId(e) IN
-  /\ h.parked # <<>>
-  /\ ConnOK(o[c], Err("General", CeaseOr9(h, "Established", h.parked[1])), h.now, {h.parked[2]})
-  /\ Untouched(h, o, Other(c))
-
 (* -- C07_Collision (RFC 4271 6.8, RFC 6286): when a valid OPEN arrives on a connection while the
       other one is in OpenConfirm, the connection NOT initiated by the higher identifier is closed
       with a Cease; against an Established connection the new one is closed.  Never two live
@@ -436,8 +437,10 @@ P_ReportedMatchesReal(h, e, o, h2) ==
        /\ (top = "OpenConfirm") <=> (o.st = "OpenConfirm")
        /\ (o.st = "OpenSent") => top = "OpenSent"
        /\ (h2[CI].live /\ h2[CI].cs = "OpenSent" /\ top = "OpenSent") => o.st = "OpenSent"
-       /\ (o.st = "Idle") => LiveConns(h2) \subseteq {c \in ConnIds : h2[c].cs = "None"}
-       /\ (o.admin # "Up") => o.st = "Idle"
+       \* Idle: nothing is open, except the outgoing connection attempt that the connection manager
+       \* runs on its own (its OpenSent phase is never reported); administratively down: nothing at all
+       /\ (o.st = "Idle") => \A c \in LiveConns(h2) : h2[c].cs = "None" \/ (c = CO /\ h2[c].cs = "OpenSent")
+       /\ (o.admin # "Up") => (o.st = "Idle" /\ \A c \in LiveConns(h2) : h2[c].cs = "None")
   /\ h2.deleted => \A c \in ConnIds : ~h2[c].live \/ h2[c].cs = "None"
 
 (* -- C07_NoRibEffectBeforeEstablished: routing messages received on a connection that is not
